@@ -26,7 +26,7 @@ func init() { core.Register("C01", core.Scenario{Run: Run, Replay: Replay}) }
 // connCase is one client connection with 1-4 requests.
 type connCase struct {
 	Kind     string              `json:"kind"` // "conn"
-	Mode     string              `json:"mode"` // "direct" | "direct-gate" | "upstream" | "upstream-auth" | "pac-upstream" | "mitm" | "mitm-pac" | "direct-slow"
+	Mode     string              `json:"mode"` // "direct" | "direct-gate" | "upstream" | "upstream-auth" | "pac-upstream" | "mitm" | "mitm-pac" | "direct-slow" | "direct-deny" | "gate-deny" | "mitm-deny"
 	Rules    []string            `json:"rules,omitempty"`
 	Requests []*reqmodel.Request `json:"requests"`
 	Pipeline bool                `json:"pipeline,omitempty"` // all requests in one write
@@ -153,6 +153,9 @@ func newEnv(ctx *core.Ctx, mode string, rules []string) (*env, error) {
 				cfg.ReadHeaderTimeout = 250 * time.Millisecond
 			case "direct-gate":
 				cfg.BasicAuth = urlUserPassword(gateUser, gatePass)
+			case "direct-deny", "gate-deny", "mitm-deny":
+				// refusal configurations (refuse.go): deny-domains, localhost denial, with / without the proxy's own basic auth
+				configureDeny(cfg, mode)
 			case "upstream":
 				cfg.UpstreamProxy = rig.MustURL("http://upstream.test:3128")
 			case "upstream-auth":
@@ -172,6 +175,8 @@ func newEnv(ctx *core.Ctx, mode string, rules []string) (*env, error) {
 	switch mode {
 	case "direct-gate":
 		e.cfg.HasAuth, e.cfg.AuthUser, e.cfg.AuthPass = true, gateUser, gatePass
+	case "direct-deny", "gate-deny", "mitm-deny":
+		denyModel(&e.cfg, mode)
 	case "upstream", "pac-upstream":
 		e.cfg.Upstream = "upstream.test:3128"
 	case "upstream-auth":
@@ -232,7 +237,7 @@ func (e *env) learnTag() (string, error) {
 	}
 	defer c.Close()
 	auth := ""
-	if e.mode == "direct-gate" {
+	if hasGate(e.mode) {
 		auth = "Proxy-Authorization: " + gateValue() + "\r\n"
 	}
 	c.Send([]byte("GET /probe HTTP/1.1\r\nHost: origin.test\r\nCase-Id: probe\r\n"+auth+"Connection: close\r\n\r\n"), nil)
@@ -251,7 +256,10 @@ func (e *env) learnTag() (string, error) {
 	return f[1], nil
 }
 
-func isMITM(mode string) bool { return mode == "mitm" || mode == "mitm-pac" }
+func isMITM(mode string) bool { return mode == "mitm" || mode == "mitm-pac" || mode == "mitm-deny" }
+
+// hasGate: the configuration asks for the proxy's own basic auth
+func hasGate(mode string) bool { return mode == "direct-gate" || mode == "gate-deny" }
 
 func schemeOf(mode string) string {
 	if isMITM(mode) {
